@@ -36,17 +36,22 @@ CONSTANTS
   StartMenu,   \* [module -> set of command lists usable in at_sim_start]
   MaxInv,      \* bound on handler invocations
   MaxT,        \* events later than MaxT are not dispatched (run limit)
-  FixDrain     \* TRUE: un-busy keeps starting queued messages while the channel stays idle (repair of D7)
+  FixDrain,    \* TRUE: un-busy keeps starting queued messages while the channel stays idle (repair of D7)
+  ReplayScripts \* <<>>: handlers choose from the menus; otherwise a sequence of scenarios [module -> sequence of command
+               \* lists]: the initial state picks one and every handler invocation executes the next recorded list
 
 VARIABLES
   now, fes, seq, active, inc, err, chan, nextMsg, ninv,
+  dead,        \* [module -> "no" | "dead" | "pending" | "revived"]: has panicked; "pending" = a restart requested by the
+               \* module itself is (still) scheduled; "revived" = that restart has run (finding F-C13-1)
   catching,    \* [module -> BOOLEAN] current stereotype (a handler may change its own)
   scripts,     \* [module -> sequence of chosen command lists] (the scenario)
   log,         \* observation log
   phase,       \* "boot" | "run" | "done"
-  boot         \* <<stage, index into Mods>> during start-up
+  boot,        \* <<stage, index into Mods>> during start-up
+  scn          \* index of the replayed scenario (0 = none)
 
-nvars == <<now, fes, seq, active, inc, err, chan, nextMsg, ninv, catching, scripts, log, phase, boot>>
+nvars == <<now, fes, seq, active, inc, err, dead, chan, nextMsg, ninv, catching, scripts, log, phase, boot, scn>>
 
 ModSet == {Mods[i] : i \in 1..Len(Mods)}
 
@@ -89,6 +94,9 @@ Walk(chs, act, msg, r, pos, t, out) ==
             <<[chs EXCEPT ![nx.ch] = res[1]], res[2]>>
        ELSE Walk(chs, act, msg, r, pos + 1, t, out)
 
+(* the stereotype in force when the panic is judged: the one the handler left behind *)
+NewCatch(m, S) == IF S.setcatch = <<>> THEN catching ELSE [catching EXCEPT ![m] = S.setcatch[1]]
+
 (* ---- executing a handler's command list: returns [chan, out (buffered events), nextMsg, shut, panic] ---- *)
 RECURSIVE Exec(_, _, _, _)
 Exec(m, t, cmds, S) ==
@@ -109,7 +117,8 @@ Exec(m, t, cmds, S) ==
     ELSE IF c.c = "setcatch" THEN Exec(m, t, Tail(cmds), [S EXCEPT !.setcatch = <<c.d = 1>>])
     ELSE IF c.c = "shutdown" THEN Exec(m, t, Tail(cmds), [S EXCEPT !.shut = <<"down">>])
     ELSE IF c.c = "restart" THEN Exec(m, t, Tail(cmds), [S EXCEPT !.shut = <<"restart", t + c.d>>])
-    ELSE (* panic *) [S EXCEPT !.panic = TRUE]
+    ELSE (* panic: judged by the stereotype in force at that moment (Harness::catch) *)
+         [S EXCEPT !.panic = TRUE, !.dead = TRUE, !.uncaught = @ \/ ~NewCatch(m, S)[m]]
 
 (* flush a sequence of <<ev, t>> into the event set in emission order *)
 RECURSIVE Flush(_, _, _)
@@ -132,15 +141,15 @@ NoMsg == [id |-> -1, size |-> 1, eat |-> 0, from |-> ""]
 (* One handler invocation on module m at time t (message delivery or a start-up stage): processing- *)
 (* element brackets, the handler's commands, the panic rule.  S carries what buf_process will need:  *)
 (* buffered events, shutdown request, panic flag.                                                    *)
-S0Of(W) == [chan |-> W.chan, out |-> <<>>, nextMsg |-> W.nextMsg, shut |-> <<>>, panic |-> FALSE, act |-> W.active, setcatch |-> <<>>]
-(* the stereotype in force when the panic is judged: the one the handler left behind *)
-NewCatch(m, S) == IF S.setcatch = <<>> THEN catching ELSE [catching EXCEPT ![m] = S.setcatch[1]]
+(* panic: the current invocation panicked; dead / uncaught: some invocation of this event panicked / was reported *)
+S0Of(W) == [chan |-> W.chan, out |-> <<>>, nextMsg |-> W.nextMsg, shut |-> <<>>, panic |-> FALSE, dead |-> FALSE, uncaught |-> FALSE,
+            act |-> W.active, setcatch |-> <<>>]
 
 
 Invoke(W, S, m, t, what, msg, hasMsg, cmds) ==
   LET up == PEUp(m, 0, Stack[m], msg, hasMsg)
       reaches == (~hasMsg) \/ up[2]                      \* the handler runs unless an element consumed the message
-      Sa == [S EXCEPT !.chan = W.chan, !.nextMsg = W.nextMsg, !.act = W.active]
+      Sa == [S EXCEPT !.chan = W.chan, !.nextMsg = W.nextMsg, !.act = W.active, !.panic = FALSE]
       Sb == IF reaches THEN Exec(m, t, cmds, Sa) ELSE Sa
       hlog == IF reaches THEN <<what>> ELSE <<>>
       (* a panic that is reported (non-catching stereotype) leaves the event at once: no event_end;   *)
@@ -150,10 +159,22 @@ Invoke(W, S, m, t, what, msg, hasMsg, cmds) ==
                       !.active = IF Sb.panic THEN [@ EXCEPT ![m] = FALSE] ELSE @] IN
   [W |-> W1, S |-> Sb, ran |-> reaches]
 
+(* the event ends with the module being reset (shutdown request consumed by buf_process): inc counts the *)
+(* incarnations of the module's state = 1 + number of Module::reset calls                              *)
+(* (a panic does not cancel the request: buf_process runs after every module event, panicked or not)    *)
+Resets(S) == S.shut # <<>>
+HasRestart(F, m) == \E e \in F : e.ev.k = "restart" /\ e.ev.m = m
+DeadAfter(m, S, W) ==        \* W: the world after the event (its event set holds the restarts to come)
+  LET pend == HasRestart(W.fes, m) IN
+  [dead EXCEPT ![m] = IF @ = "revived" THEN @
+                      ELSE IF S.dead \/ @ # "no" THEN (IF pend \/ @ = "pending" THEN "pending" ELSE "dead")
+                      ELSE @]
+IncAfter(m, S) == IF Resets(S) THEN [inc EXCEPT ![m] = @ + 1] ELSE inc
+
 (* buf_process: flush buffered events in emission order, then consume a shutdown request *)
 Finish(W, m, t, S) ==
   LET W2 == Flush(W, t, S.out) IN
-  IF S.shut = <<>> \/ S.panic THEN W2
+  IF S.shut = <<>> THEN W2
   ELSE LET W3 == [W2 EXCEPT !.active = [@ EXCEPT ![m] = FALSE], !.log = Append(@, [o |-> "reset", m |-> m, t |-> t])] IN
        IF S.shut[1] = "restart" THEN AddEv(W3, t, [k |-> "restart", m |-> m], S.shut[2]) ELSE W3
 
@@ -167,19 +188,21 @@ Drain(cs, ch, t, out) ==
            res == ChanSend(cs1, ch, x.msg, x.r, x.pos, t, out) IN
        IF FixDrain THEN Drain(res[1], ch, t, res[2]) ELSE res
 
-(* ModuleRestartEvent: all stages back to back sharing one event buffer, stops at a panicking stage *)
+(* ModuleRestartEvent: all stages back to back sharing one event buffer; a reported panic ends the loop *)
+(* (`?` in module_restart), a caught one does not: the next stage runs on the deactivated module        *)
 RECURSIVE RestartAll(_, _, _, _, _, _, _)
 RestartAll(W, S, m, t, stage, cs, used) ==
-  IF stage >= Stages[m] \/ S.panic THEN [W |-> W, S |-> S, used |-> used]
-  ELSE LET R == Invoke(W, S, m, t, [o |-> "start", m |-> m, stage |-> stage, t |-> t, inc |-> inc[m] + 1], NoMsg, FALSE, cs[stage + 1]) IN
+  IF stage >= Stages[m] \/ S.uncaught THEN [W |-> W, S |-> S, used |-> used]
+  ELSE LET R == Invoke(W, S, m, t, [o |-> "start", m |-> m, stage |-> stage, t |-> t, inc |-> inc[m]], NoMsg, FALSE, cs[stage + 1]) IN
        RestartAll(R.W, R.S, m, t, stage + 1, cs, Append(used, cs[stage + 1]))
 
 -----------------------------------------------------------------------------
 Init == /\ now = 0 /\ fes = {} /\ seq = 0
-        /\ active = [m \in ModSet |-> TRUE] /\ inc = [m \in ModSet |-> 1] /\ err = {}
+        /\ active = [m \in ModSet |-> TRUE] /\ inc = [m \in ModSet |-> 1] /\ err = {} /\ dead = [m \in ModSet |-> "no"]
         /\ chan = [c \in Chans |-> [busy |-> FALSE, until |-> 0, q |-> <<>>, acc |-> 0]]
         /\ nextMsg = 1 /\ ninv = 0 /\ scripts = [m \in ModSet |-> <<>>] /\ catching = Catch
         /\ log = <<>> /\ phase = "boot" /\ boot = <<0, 1>>
+        /\ scn \in (IF ReplayScripts = <<>> THEN {0} ELSE 1..Len(ReplayScripts))
 
 MaxStage == LET S == {Stages[m] : m \in ModSet} \cup {1} IN CHOOSE x \in S : \A y \in S : y <= x
 
@@ -187,27 +210,31 @@ Commit(W) == /\ fes' = W.fes /\ seq' = W.seq /\ chan' = W.chan /\ log' = W.log
              /\ nextMsg' = W.nextMsg /\ active' = W.active
 
 Counts(menu) == IF Cardinality(menu) > 1 THEN 1 ELSE 0      \* invocations without a choice do not use up the bound
-Choices(menu) == IF ninv < MaxInv THEN menu ELSE {<<>>}      \* scripts end: later invocations do nothing
+(* what the next handler invocation of module m may do: a menu entry, or (replay) the next recorded list *)
+Recorded(m, k) == IF k <= Len(ReplayScripts[scn][m]) THEN ReplayScripts[scn][m][k] ELSE <<>>
+ChoicesFor(m, menu) == IF scn > 0 THEN {Recorded(m, Len(scripts[m]) + 1)}
+                       ELSE IF ninv < MaxInv THEN menu ELSE {<<>>}      \* scripts end: later invocations do nothing
 
 (* start-up: stage-major over the module-tree order *)
 BootStep ==
   /\ phase = "boot"
   /\ LET stage == boot[1]  idx == boot[2] IN
      IF stage >= MaxStage
-     THEN /\ phase' = "run" /\ UNCHANGED <<now, fes, seq, active, inc, err, chan, nextMsg, ninv, catching, scripts, log, boot>>
+     THEN /\ phase' = "run" /\ UNCHANGED <<now, fes, seq, active, inc, err, dead, chan, nextMsg, ninv, catching, scripts, log, boot, scn>>
      ELSE LET m == Mods[idx]
               nxt == IF idx = Len(Mods) THEN <<stage + 1, 1>> ELSE <<stage, idx + 1>> IN
           /\ boot' = nxt
           /\ IF stage < Stages[m]
-             THEN \E cmds \in Choices(StartMenu[m]) :
+             THEN \E cmds \in ChoicesFor(m, StartMenu[m]) :
                     LET R == Invoke(World, S0Of(World), m, 0, [o |-> "start", m |-> m, stage |-> stage, t |-> 0, inc |-> inc[m]], NoMsg, FALSE, cmds) IN
                     /\ Commit(Finish(R.W, m, 0, R.S))
                     /\ catching' = NewCatch(m, R.S)
-                    /\ err' = IF R.S.panic /\ ~NewCatch(m, R.S)[m] THEN err \cup {m} ELSE err
+                    /\ err' = (IF R.S.uncaught THEN err \cup {m} ELSE err) /\ dead' = DeadAfter(m, R.S, Finish(R.W, m, 0, R.S))
                     /\ scripts' = [scripts EXCEPT ![m] = Append(@, cmds)]
                     /\ ninv' = ninv + Counts(StartMenu[m])
-             ELSE UNCHANGED <<fes, seq, chan, log, nextMsg, active, err, scripts, ninv, catching>>
-          /\ UNCHANGED <<now, inc, phase>>
+                    /\ inc' = IncAfter(m, R.S)
+             ELSE UNCHANGED <<fes, seq, chan, log, nextMsg, active, err, dead, scripts, ninv, catching, inc>>
+          /\ UNCHANGED <<now, phase, scn>>
 
 CanRun == phase = "run" /\ fes # {} /\ MinOf(fes).t <= MaxT
 
@@ -220,36 +247,38 @@ Step ==
           LET idle == [W0.chan[e.ev.ch] EXCEPT !.busy = FALSE, !.until = 0]
               res == Drain(idle, e.ev.ch, e.t, <<>>) IN
           /\ Commit(Flush([W0 EXCEPT !.chan = [@ EXCEPT ![e.ev.ch] = res[1]]], e.t, res[2]))
-          /\ UNCHANGED <<inc, err, ninv, scripts, phase, boot, catching>>
+          /\ UNCHANGED <<inc, err, dead, ninv, scripts, phase, boot, catching, scn>>
         ELSE IF e.ev.k = "exit" THEN
           LET res == Walk(W0.chan, W0.active, e.ev.msg, e.ev.r, e.ev.pos, e.t, <<>>) IN
           /\ Commit(Flush([W0 EXCEPT !.chan = res[1]], e.t, res[2]))
-          /\ UNCHANGED <<inc, err, ninv, scripts, phase, boot, catching>>
+          /\ UNCHANGED <<inc, err, dead, ninv, scripts, phase, boot, catching, scn>>
         ELSE IF e.ev.k = "msg" THEN
           LET m == e.ev.m IN
           IF ~W0.active[m]
-          THEN /\ Commit(W0) /\ UNCHANGED <<inc, err, ninv, scripts, phase, boot, catching>>
-          ELSE \E cmds \in Choices(Menu[m]) :
+          THEN /\ Commit(W0) /\ UNCHANGED <<inc, err, dead, ninv, scripts, phase, boot, catching, scn>>
+          ELSE \E cmds \in ChoicesFor(m, Menu[m]) :
                  LET R == Invoke(W0, S0Of(W0), m, e.t, [o |-> "msg", m |-> m, id |-> e.ev.msg.id, t |-> e.t, inc |-> inc[m]], e.ev.msg, TRUE, cmds) IN
-                 /\ (~R.ran => cmds = <<>>)          \* a consumed message runs no handler: canonical empty choice
+                 /\ (~R.ran => (scn > 0 \/ cmds = <<>>))   \* a consumed message runs no handler: canonical empty choice
                  /\ Commit(Finish(R.W, m, e.t, R.S))
                  /\ catching' = NewCatch(m, R.S)
-                 /\ err' = IF R.S.panic /\ ~NewCatch(m, R.S)[m] THEN err \cup {m} ELSE err
+                 /\ err' = (IF R.S.uncaught THEN err \cup {m} ELSE err) /\ dead' = DeadAfter(m, R.S, Finish(R.W, m, e.t, R.S))
                  /\ scripts' = IF R.ran THEN [scripts EXCEPT ![m] = Append(@, cmds)] ELSE scripts
                  /\ ninv' = IF R.ran THEN ninv + Counts(Menu[m]) ELSE ninv
-                 /\ UNCHANGED <<inc, phase, boot>>
+                 /\ inc' = IncAfter(m, R.S)
+                 /\ UNCHANGED <<phase, boot, scn>>
         ELSE (* restart *)
           LET m == e.ev.m
               Wa == [W0 EXCEPT !.active = [@ EXCEPT ![m] = TRUE]] IN
-          \E cs \in [1..Stages[m] -> Choices(StartMenu[m])] :
+          \E cs \in (IF scn > 0 THEN {[i \in 1..Stages[m] |-> Recorded(m, Len(scripts[m]) + i)]} ELSE [1..Stages[m] -> ChoicesFor(m, StartMenu[m])]) :
             LET R == RestartAll(Wa, S0Of(Wa), m, e.t, 0, cs, <<>>) IN
             /\ Commit(Finish(R.W, m, e.t, R.S))
-            /\ inc' = [inc EXCEPT ![m] = @ + 1]
+            /\ inc' = IncAfter(m, R.S)
             /\ catching' = NewCatch(m, R.S)
-            /\ err' = IF R.S.panic /\ ~NewCatch(m, R.S)[m] THEN err \cup {m} ELSE err
+            /\ err' = (IF R.S.uncaught THEN err \cup {m} ELSE err)
+            /\ dead' = IF dead[m] # "no" THEN [dead EXCEPT ![m] = "revived"] ELSE DeadAfter(m, R.S, Finish(R.W, m, e.t, R.S))
             /\ scripts' = [scripts EXCEPT ![m] = @ \o R.used]
             /\ ninv' = ninv + Len(R.used) * Counts(StartMenu[m])
-            /\ UNCHANGED <<phase, boot>>
+            /\ UNCHANGED <<phase, boot, scn>>
 
 (* tear-down: at_sim_end of every module in tree order (also of inactive ones), bracketed by its elements *)
 RECURSIVE EndLog(_)
@@ -258,7 +287,7 @@ EndLog(i) == IF i > Len(Mods) THEN <<>>
                   \o PEDown(Mods[i], Stack[Mods[i]]) \o EndLog(i + 1)
 EndStep == /\ phase = "run" /\ ~CanRun
            /\ phase' = "done" /\ log' = log \o EndLog(1)
-           /\ UNCHANGED <<now, fes, seq, active, inc, err, chan, nextMsg, ninv, catching, scripts, boot>>
+           /\ UNCHANGED <<now, fes, seq, active, inc, err, dead, chan, nextMsg, ninv, catching, scripts, boot, scn>>
 
 Next == BootStep \/ Step \/ EndStep
 Spec == Init /\ [][Next]_nvars
@@ -278,6 +307,10 @@ AccIsSum == \A ch \in Chans : chan[ch].acc = SumBytes(chan[ch].q)
 QueueWithinLimit == \A ch \in Chans : LimitOf[ch] >= 0 => chan[ch].acc <= LimitOf[ch]
 NoDuplicates == \A ch \in Chans : InFlight(ch) \cap Queued(ch) = {}
 (* ---- C09: an inactive module runs nothing; ---- C02: time never decreases *)
+(* ---- C13: a module that panicked stays deactivated ...                                              *)
+PanickedInert == \A m \in ModSet : dead[m] # "no" => ~active[m]
+(* ... which the code guarantees except when a shutdown / restart request of the module was pending *)
+PanickedInertUnlessPending == \A m \in ModSet : dead[m] \in {"dead", "pending"} => ~active[m]
 TimeMonotone == [][now' >= now]_nvars
 NoPastEvents == \A e \in fes : e.t >= now
 =============================================================================
